@@ -109,6 +109,17 @@ CHECKS = {
               "laws, relative-pose norm, exact step amounts, evenly spaced path, exp(twist) onto the goal, analytic "
               "Jacobians, unit norms, congruence modulo 2*pi)."),
         ref="DESIGN.md section 5 / C18"),
+    "C19": dict(
+        technique="runtime monitoring: offline multiset/exactly-once checker against a sequential reference model, exhaustive short "
+                  "histories, receive-fault injection at every receive position",
+        category="fault_enumeration",
+        text=("The real Comms hub runs with in-memory CommsObject doubles, recording sinks/sources and uniquely identified "
+              "messages; after every operation the multiset of deliveries and the registration return values are compared with "
+              "a 40-line sequential model.  All sequences up to depth 3 (quick) / 5 (thorough, 5.4e6 sequences) over a "
+              "22-operation alphabet on two endpoints are enumerated; random histories of depth <= 60 on 1..4 endpoints are "
+              "re-run once per receive position with a no-data fault injected there; a short run uses real UDP loopback "
+              "sockets (reported as skipped if they cannot be bound)."),
+        ref="DESIGN.md section 5 / C19"),
     "C20": dict(
         technique="runtime monitoring: totality + stdout capture + parse-back oracle over generated objects",
         text=("disp is run on generated objects of every listed kind with stdout captured; the monitor asserts no "
